@@ -186,7 +186,7 @@ SStep ==
                   ELSE LET b == SBad(e) IN IF b = "ok" THEN viol ELSE [l |-> l, inv |-> b, exp |-> ToString(res')]
        /\ gct' = IF e.op = "gcscan" THEN GCTables ELSE IF e.op = "step" /\ gcfresh THEN gct \cup GCTablesP ELSE gct
        /\ gcfresh' = IF e.op = "gcscan" THEN TRUE ELSE IF e.op = "step" THEN FALSE ELSE gcfresh
-    /\ l' = l + 1 /\ tr' = tr /\ nops' = nops
+    /\ l' = l + 1 /\ tr' = tr /\ nops' = nops /\ KflNext
 
 SDone == TDone /\ UNCHANGED << gct, gcfresh >>
 SInit == TInit /\ gct = {} /\ gcfresh = FALSE
